@@ -265,21 +265,36 @@ def load_known():
     return out
 
 
+def _sig_ok(want, got):
+    if isinstance(want, dict):
+        if "prefix" in want:
+            return isinstance(got, str) and any(got.startswith(p) for p in (want["prefix"] if isinstance(want["prefix"], list) else [want["prefix"]]))
+        if "contains" in want:
+            return isinstance(got, str) and want["contains"] in got
+        if "regex" in want:
+            import re
+            return isinstance(got, str) and re.search(want["regex"], got) is not None
+        if "any_of" in want:
+            return got in want["any_of"]
+        return False
+    if isinstance(want, list):
+        return got in want
+    return got == want
+
+
 def match_known(known, prop, v):
-    """A violation is 'known' only if an open (not fixed) entry of the same property and clause matches its
-    signature; the signature is evaluated on attributes the oracle attached to the violation."""
+    """A violation is 'known' only if an OPEN entry of the same property lists its clause and every attribute of
+    the entry's signature matches the cause-class attributes the oracle attached to the violation (attributes are
+    derived from the history / trace, e.g. `compacted`, `flush_parked`, `clock_regressed`, `feat`, `vclass`).
+    Entries with status 'fixed' never match."""
     for kf in known:
-        if kf.get("status") == "fixed":
+        if kf.get("status") != "open" or kf.get("property") != prop:
             continue
-        if kf.get("property") != prop or kf.get("clause") != v.get("clause"):
+        clauses = kf.get("clauses") or [kf.get("clause")]
+        if v.get("clause") not in clauses:
             continue
         sig = kf.get("signature") or {}
-        ok = True
-        for key, want in sig.items():
-            if v.get(key) != want:
-                ok = False
-                break
-        if ok:
+        if all(_sig_ok(want, v.get(key)) for key, want in sig.items()):
             return kf
     return None
 
